@@ -11,6 +11,7 @@
 import LpProofs.C07.Sums
 -- coverage extension: PDF_Gauss_2D (property theorems in this module)
 import LpProofs.C07.Gauss2D
+import LpProofs.C07.KDE
 import Mathlib.Data.Nat.Choose.Sum
 import Mathlib.Tactic.FieldSimp
 import Mathlib.Tactic.Positivity
@@ -320,7 +321,13 @@ theorem quantile_gauss_guard (T : Fn) (p mu sigma : Rat) (hp : p ≤ 0 ∨ 1 + 1
     unfold rabs; rcases hp with h | h <;> split_ifs <;> norm_num at * <;> linarith
   have h2 : rabs (2 * p - 1) ≥ 1 := by
     unfold rabs; rcases hp with h | h <;> split_ifs <;> norm_num at * <;> linarith
-  rw [if_neg h1, if_pos h2]; rfl
+  by_cases hs : sigma < 0
+  · rw [if_pos hs]
+  · rw [if_neg hs, if_neg h1, if_pos h2]; rfl
+
+/-- `fix:` d65f15f: a negative standard deviation is rejected (zero is accepted: the quantile is `mu`) -/
+theorem quantile_gauss_sigma_guard (T : Fn) (p mu sigma : Rat) (hs : sigma < 0) : quantileGauss T p mu sigma = .error .diag := by
+  unfold quantileGauss; rw [if_pos hs]
 
 /-! ## Likelihoods -/
 
@@ -332,7 +339,7 @@ theorem likelihood_is_pmf (T : Fn) (hlog1 : T.log 1 = 0) (s b : Rat) (n : Nat) (
   congr 2
   rcases Nat.eq_zero_or_pos n with rfl | hn
   · simp [sumLog]
-  · rw [sumLog_one_two T n hn, hlog1]; ring
+  · rw [if_neg (by omega), sumLog_one_two T n hn, hlog1]; ring
 
 /-- the log version is the logarithm (needs `log ∘ exp = id`) -/
 theorem log_likelihood_is_log (T : Fn) (hle : ∀ y, T.log (T.exp y) = y) (s b : Rat) (n : Nat) :
@@ -352,12 +359,20 @@ theorem binned_mismatch (T : Fn) (s : List Rat) (n : List Nat) (b : List Rat)
 
 /-- **binned = product over bins** (needs `exp 0 = 1`, `exp (a+b) = exp a · exp b`); log version = sum -/
 theorem binned_is_product (T : Fn) (h0 : T.exp 0 = 1) (hadd : ∀ a b, T.exp (a + b) = T.exp a * T.exp b)
-    (s : List Rat) (n : List Nat) (b : List Rat) (l : List (Rat × Nat × Rat)) (hb : bins s n b = .ok l) :
+    (s : List Rat) (n : List Nat) (b : List Rat) (l : List (Rat × Nat × Rat)) (hb : bins s n b = .ok l)
+    (hnn : ∀ t ∈ l, 0 ≤ t.1 ∧ 0 ≤ t.2.2) :
     logLikelihoodBinned T s n b = .ok ((l.map (fun t => logLikelihoodPoisson T t.1 t.2.1 t.2.2)).sum) ∧
       likelihoodBinned T s n b = .ok ((l.map (fun t => likelihoodPoisson T t.1 t.2.1 t.2.2)).prod) := by
   have e1 : logLikelihoodBinned T s n b = .ok ((l.map (fun t => logLikelihoodPoisson T t.1 t.2.1 t.2.2)).sum) := by
     unfold logLikelihoodBinned
     rw [hb]
+    have hany : l.any (fun t => decide (t.1 < 0 ∨ t.2.2 < 0)) = false := by
+      rw [List.any_eq_false]
+      intro t ht
+      have := hnn t ht
+      simp only [decide_eq_true_eq]
+      intro h; rcases h with h | h <;> linarith [this.1, this.2]
+    simp only [hany]
     show Except.ok (List.foldl (fun acc t => acc + logLikelihoodPoisson T t.1 t.2.1 t.2.2) 0 l) = _
     rw [foldl_add_eq_sum (fun t => logLikelihoodPoisson T t.1 t.2.1 t.2.2) l 0, zero_add]
   refine ⟨e1, ?_⟩
@@ -398,7 +413,7 @@ example : cdfChiSq Ttriv 1 0 = 1 ∧ cdfChiSq Ttriv (-1) 3 = 0 ∧ pdfChiSq Ttri
 theorem likelihood_empty_bin (T : Fn) (b : Rat) : likelihoodPoisson T 0 0 b = T.exp (-b) := by
   unfold likelihoodPoisson logLikelihoodPoisson
   congr 1
-  simp [sumLog]
+  simp
 
 /-- with an explicit background vector of the right length the bins are the triples `(s_i, n_i, b_i)` -/
 theorem bins_explicit (s : List Rat) (n : List Nat) (b : List Rat) (hb : b ≠ []) (hn : n.length = s.length) (hl : b.length = s.length) :
@@ -409,11 +424,18 @@ theorem bins_explicit (s : List Rat) (n : List Nat) (b : List Rat) (hb : b ≠ [
 
 /-- the binned likelihood of `(0, 0, b₀)` followed by further bins is `exp(-b₀)` times the rest: no bin may be skipped -/
 theorem binned_empty_bin_factor (T : Fn) (h0 : T.exp 0 = 1) (hadd : ∀ a b, T.exp (a + b) = T.exp a * T.exp b)
-    (b0 : Rat) (s : List Rat) (n : List Nat) (b : List Rat) (hn : n.length = s.length) (hl : b.length = s.length) :
+    (b0 : Rat) (s : List Rat) (n : List Nat) (b : List Rat) (hn : n.length = s.length) (hl : b.length = s.length)
+    (hb0 : 0 ≤ b0) (hnn : ∀ t ∈ s.zip (n.zip b), 0 ≤ t.1 ∧ 0 ≤ t.2.2) :
     likelihoodBinned T (0 :: s) (0 :: n) (b0 :: b) =
       .ok (T.exp (-b0) * ((s.zip (n.zip b)).map (fun t => likelihoodPoisson T t.1 t.2.1 t.2.2)).prod) := by
   have hb := bins_explicit (0 :: s) (0 :: n) (b0 :: b) (by simp) (by simp [hn]) (by simp [hl])
-  rw [(binned_is_product T h0 hadd _ _ _ _ hb).2]
+  have hnn' : ∀ t ∈ ((0 : Rat) :: s).zip (((0 : Nat) :: n).zip (b0 :: b)), 0 ≤ t.1 ∧ 0 ≤ t.2.2 := by
+    intro t ht
+    simp only [List.zip_cons_cons, List.mem_cons] at ht
+    rcases ht with rfl | ht
+    · exact ⟨le_refl _, hb0⟩
+    · exact hnn t ht
+  rw [(binned_is_product T h0 hadd _ _ _ _ hb hnn').2]
   simp [likelihood_empty_bin]
 
 example : bins [0, 2] [0, 3] [1, 0] = .ok [(0, 0, 1), (2, 3, 0)] := by decide +kernel
@@ -460,7 +482,8 @@ theorem cdfMB_scale (T : Fn) (c x a : Rat) (hc : 0 < c) : cdfMB T (c * x) (c * a
         · simp [h2]
         · field_simp
       have e3 : T.sqrt (2 / T.pi) * (c * x) / (c * a) = T.sqrt (2 / T.pi) * x / a := by field_simp
-      rw [e1, e2, e3]
+      have e4 : c * x / (c * a) = x / a := by field_simp
+      rw [e1, e2, e3, e4]
 
 theorem pdfExponential_scale (T : Fn) (c x m : Rat) (hc : 0 < c) :
     pdfExponential T (c * x) (c * m) = (pdfExponential T x m).map (fun v => v / c) := by
@@ -531,5 +554,165 @@ theorem likelihood_000 (T : Fn) (h0 : T.exp 0 = 1) : likelihoodPoisson T 0 0 0 =
   constructor
   · unfold likelihoodPoisson; rw [logLikelihood_zero_obs]; simpa using h0
   · unfold pmfPoisson; simp
+
+section Fixes
+open Lp.Interp
+
+/-! ## Parameter guards of `fix:` d65f15f: rejected exactly outside the parameter range, otherwise the formula -/
+
+theorem uniformE_spec (x lo hi : Rat) :
+    (hi ≤ lo → pdfUniformE x lo hi = .error .diag ∧ cdfUniformE x lo hi = .error .diag) ∧
+      (lo < hi → pdfUniformE x lo hi = .ok (pdfUniform x lo hi) ∧ cdfUniformE x lo hi = .ok (cdfUniform x lo hi)) := by
+  unfold pdfUniformE cdfUniformE
+  constructor
+  · intro h; rw [if_pos h, if_pos h]; exact ⟨rfl, rfl⟩
+  · intro h; rw [if_neg (not_le.mpr h), if_neg (not_le.mpr h)]; exact ⟨rfl, rfl⟩
+
+theorem gaussE_spec (T : Fn) (x mu sigma : Rat) :
+    (sigma ≤ 0 → pdfGaussE T x mu sigma = .error .diag ∧ cdfGaussE T x mu sigma = .error .diag) ∧
+      (0 < sigma → pdfGaussE T x mu sigma = .ok (pdfGauss T x mu sigma) ∧ cdfGaussE T x mu sigma = .ok (cdfGauss T x mu sigma)) := by
+  unfold pdfGaussE cdfGaussE
+  constructor
+  · intro h; rw [if_pos h, if_pos h]; exact ⟨rfl, rfl⟩
+  · intro h; rw [if_neg (not_le.mpr h), if_neg (not_le.mpr h)]; exact ⟨rfl, rfl⟩
+
+theorem chiSqE_spec (T : Fn) (x dof : Rat) :
+    (dof < 0 → pdfChiSqE T x dof = .error .diag ∧ cdfChiSqE T x dof = .error .diag) ∧
+      (0 ≤ dof → pdfChiSqE T x dof = .ok (pdfChiSq T x dof) ∧ cdfChiSqE T x dof = .ok (cdfChiSq T x dof)) := by
+  unfold pdfChiSqE cdfChiSqE
+  constructor
+  · intro h; rw [if_pos h, if_pos h]; exact ⟨rfl, rfl⟩
+  · intro h; rw [if_neg (not_lt.mpr h), if_neg (not_lt.mpr h)]; exact ⟨rfl, rfl⟩
+
+theorem logLikelihoodE_spec (T : Fn) (s b : Rat) (n : Nat) :
+    ((s < 0 ∨ b < 0) → logLikelihoodPoissonE T s n b = .error .diag ∧ likelihoodPoissonE T s n b = .error .diag) ∧
+      (0 ≤ s → 0 ≤ b → logLikelihoodPoissonE T s n b = .ok (logLikelihoodPoisson T s n b) ∧
+        likelihoodPoissonE T s n b = .ok (likelihoodPoisson T s n b)) := by
+  unfold likelihoodPoissonE logLikelihoodPoissonE
+  constructor
+  · intro h; rw [if_pos h]; exact ⟨rfl, rfl⟩
+  · intro h1 h2
+    rw [if_neg (by intro h; rcases h with h | h <;> linarith)]
+    exact ⟨rfl, rfl⟩
+
+/-- a bin with a negative expectation ends the binned likelihoods with a diagnostic -/
+theorem binned_negative (T : Fn) (s : List Rat) (n : List Nat) (b : List Rat) (l : List (Rat × Nat × Rat)) (hb : bins s n b = .ok l)
+    (t : Rat × Nat × Rat) (ht : t ∈ l) (hneg : t.1 < 0 ∨ t.2.2 < 0) :
+    logLikelihoodBinned T s n b = .error .diag ∧ likelihoodBinned T s n b = .error .diag := by
+  have e : logLikelihoodBinned T s n b = .error .diag := by
+    unfold logLikelihoodBinned
+    rw [hb]
+    have hany : l.any (fun t => decide (t.1 < 0 ∨ t.2.2 < 0)) = true := by
+      rw [List.any_eq_true]; exact ⟨t, ht, by simpa using hneg⟩
+    simp only [hany, if_true]
+  refine ⟨e, ?_⟩
+  unfold likelihoodBinned; rw [e]; rfl
+
+/-! ## Maxwell–Boltzmann: the series branch (`fix:` a8d8068) is non-negative and increasing on [0, 1/10) -/
+
+/-- the Horner form as coded is the alternating series `c · Σ_k (−1)^k t^(2k+3) / (2^k k! (2k+3))`, six terms -/
+theorem mbSeries_expand (c t : Rat) :
+    mbSeries c t = c * (t ^ 3 / 3 - t ^ 5 / 10 + t ^ 7 / 56 - t ^ 9 / 432 + t ^ 11 / 4224 - t ^ 13 / 49920) := by
+  unfold mbSeries; ring
+
+/-- two consecutive terms `a t^m − b t^(m+2)` with `2b ≤ a` increase on [0,1]: `t^(m+2) − s^(m+2) ≤ 2 (t^m − s^m)` -/
+theorem pow_pair (k : Nat) (s t : Rat) (hs : 0 ≤ s) (hst : s ≤ t) (ht : t ≤ 1) :
+    t ^ (k + 4) - s ^ (k + 4) ≤ 2 * (t ^ (k + 2) - s ^ (k + 2)) := by
+  have hA : s ^ k ≤ t ^ k := pow_le_pow_left₀ hs hst k
+  have hB : 0 ≤ s ^ k := pow_nonneg hs k
+  have ht0 : 0 ≤ t := le_trans hs hst
+  have hs1 : s ≤ 1 := le_trans hst ht
+  have a1 : 0 ≤ t ^ 2 - s ^ 2 := by nlinarith
+  have a2 : 0 ≤ 2 - t ^ 2 - s ^ 2 := by nlinarith
+  have a3 := mul_nonneg a1 a2
+  have hphi : s ^ 2 * (2 - s ^ 2) ≤ t ^ 2 * (2 - t ^ 2) := by nlinarith [a3]
+  have hphis : 0 ≤ s ^ 2 * (2 - s ^ 2) := mul_nonneg (sq_nonneg s) (by nlinarith)
+  have hphit : 0 ≤ t ^ 2 * (2 - t ^ 2) := le_trans hphis hphi
+  have h1 : s ^ k * (s ^ 2 * (2 - s ^ 2)) ≤ t ^ k * (t ^ 2 * (2 - t ^ 2)) :=
+    mul_le_mul hA hphi hphis (le_trans hB hA)
+  have e1 : t ^ (k + 4) = t ^ k * t ^ 4 := by ring
+  have e2 : s ^ (k + 4) = s ^ k * s ^ 4 := by ring
+  have e3 : t ^ (k + 2) = t ^ k * t ^ 2 := by ring
+  have e4 : s ^ (k + 2) = s ^ k * s ^ 2 := by ring
+  rw [e1, e2, e3, e4]
+  nlinarith [h1]
+
+theorem mbSeries_nonneg (c t : Rat) (hc : 0 ≤ c) (h0 : 0 ≤ t) (h1 : t ≤ 1) : 0 ≤ mbSeries c t := by
+  rw [mbSeries_expand]
+  apply mul_nonneg hc
+  have p1 := pow_pair 1 0 t (le_refl _) h0 h1
+  have p5 := pow_pair 5 0 t (le_refl _) h0 h1
+  have p9 := pow_pair 9 0 t (le_refl _) h0 h1
+  have q3 : 0 ≤ t ^ 3 := pow_nonneg h0 3
+  have q7 : 0 ≤ t ^ 7 := pow_nonneg h0 7
+  have q11 : 0 ≤ t ^ 11 := pow_nonneg h0 11
+  norm_num at p1 p5 p9
+  linarith
+
+/-- **monotone**: on `0 ≤ s ≤ t ≤ 1` (in particular on the branch `t < 1/10`) the series value does not decrease -/
+theorem mbSeries_mono (c s t : Rat) (hc : 0 ≤ c) (hs : 0 ≤ s) (hst : s ≤ t) (ht : t ≤ 1) : mbSeries c s ≤ mbSeries c t := by
+  rw [mbSeries_expand, mbSeries_expand]
+  apply mul_le_mul_of_nonneg_left _ hc
+  have p1 := pow_pair 1 s t hs hst ht
+  have p5 := pow_pair 5 s t hs hst ht
+  have p9 := pow_pair 9 s t hs hst ht
+  have q3 : s ^ 3 ≤ t ^ 3 := pow_le_pow_left₀ hs hst 3
+  have q7 : s ^ 7 ≤ t ^ 7 := pow_le_pow_left₀ hs hst 7
+  have q11 : s ^ 11 ≤ t ^ 11 := pow_le_pow_left₀ hs hst 11
+  norm_num at p1 p5 p9
+  linarith
+
+/-- `CDF_Maxwell_Boltzmann ≥ 0` on the series branch, for every `sqrt` that is non-negative; and the CDF does not decrease there -/
+theorem cdfMB_series_branch (T : Fn) (hsq : 0 ≤ T.sqrt (2 / T.pi)) (x y a : Rat) (ha : 0 < a) (hx : 0 ≤ x) (hxy : x ≤ y) (hy : y / a < 1 / 10) :
+    ∃ vx vy, cdfMB T x a = .ok vx ∧ cdfMB T y a = .ok vy ∧ 0 ≤ vx ∧ vx ≤ vy := by
+  have hxa : x / a ≤ y / a := div_le_div_of_nonneg_right hxy ha.le
+  have hx0 : 0 ≤ x / a := div_nonneg hx ha.le
+  refine ⟨mbSeries (T.sqrt (2 / T.pi)) (x / a), mbSeries (T.sqrt (2 / T.pi)) (y / a), ?_, ?_, ?_, ?_⟩
+  · unfold cdfMB
+    rw [if_neg (not_le.mpr ha), if_neg (not_lt.mpr hx)]
+    simp only
+    rw [if_pos (lt_of_le_of_lt hxa hy)]
+  · unfold cdfMB
+    rw [if_neg (not_le.mpr ha), if_neg (not_lt.mpr (le_trans hx hxy))]
+    simp only
+    rw [if_pos hy]
+  · exact mbSeries_nonneg _ _ hsq hx0 (by linarith)
+  · exact mbSeries_mono _ _ _ hsq hx0 hxa (by linarith)
+
+/-- above the switch the coded function is the closed form (the agreement of the two branches at `x/a = 1/10` is a
+    statement about `erf` and `exp`: correspondence-only) -/
+theorem cdfMB_closed_branch (T : Fn) (x a : Rat) (ha : 0 < a) (hx : 1 / 10 ≤ x / a) : cdfMB T x a = cdfMBClosed T x a := by
+  have hx0 : 0 ≤ x := by
+    by_contra h
+    have : x / a < 0 := div_neg_of_neg_of_pos (not_le.mp h) ha
+    linarith
+  unfold cdfMB cdfMBClosed
+  rw [if_neg (not_le.mpr ha), if_neg (not_lt.mpr hx0), if_neg (not_le.mpr ha), if_neg (not_lt.mpr hx0)]
+  simp only
+  rw [if_neg (not_lt.mpr hx)]
+
+/-! ## KDE: normalised with the exact integral of its own interpolation (`fix:` f8bedae, through C08) -/
+
+/-- **kde_normalised**: if the exact integral (C08 `pInteg`) of the tabulated estimate over the window is `I ≠ 0`, the
+    estimate scaled by `1/I` integrates to exactly 1 -/
+theorem kde_normalised (o : Obj) (a b I : Rat) (hI : Lp.C09.pInteg o a b = .ok I) (h0 : I ≠ 0) :
+    Lp.C09.pInteg (kdeNormalise o I) a b = .ok 1 := by
+  have e1 : o = { o with pref := o.pref } := rfl
+  have h1 := pInteg_scale o o.pref a b
+  rw [← e1, hI] at h1
+  have h2 := pInteg_scale o (o.pref * (1 / I)) a b
+  unfold kdeNormalise Obj.multiply
+  rw [h2]
+  cases hJ : Lp.C09.pInteg { o with pref := 1 } a b with
+  | error e => rw [hJ] at h1; cases h1
+  | ok J =>
+    rw [hJ] at h1
+    simp only [Except.map] at h1 ⊢
+    injection h1 with h1
+    congr 1
+    rw [mul_assoc, mul_comm (1 / I), ← mul_assoc, ← h1]
+    field_simp
+
+end Fixes
 
 end Lp.C07
